@@ -401,6 +401,14 @@ def eq(a: Term, b: Term, numeric: bool = None) -> Term:
         numeric = _looks_numeric(a) or _looks_numeric(b)
     if a[0] == "const" and b[0] == "const":
         return TRUE if a == b else FALSE
+    # a length is never negative: len(x) == 0 is len(x) <= 0 (and len(x) != 0 is 0 < len(x)): one form for the emptiness test
+    for u, k in ((a, b), (b, a)):
+        if k == ZERO and u[0] == "call" and u[1] == "len" and len(u[2]) == 1:
+            return le(u, ZERO)
+    # comparing a conditionally bound value with a constant: `(x if c else None) is None`  ==  `not c or x is None`
+    for u, k in ((a, b), (b, a)):
+        if u[0] == "ite" and k[0] == "const" and (u[2][0] == "const" or u[3][0] == "const"):
+            return mk_ite(u[1], eq(u[2], k, numeric), eq(u[3], k, numeric))
     if a[0] == "sym" and b[0] == "sym" and a != b and _distinct_constants(a[1], b[1]):
         return FALSE
     if (a[0] == "sym" and b[0] == "const" and _is_enum_member(a[1])) or (
@@ -514,11 +522,27 @@ def mk_ite(c: Term, a: Term, b: Term) -> Term:
         return c
     if a == FALSE and b == TRUE:
         return mk_not(c)
+    if b == TRUE and _is_bool(a):
+        return mk_or([mk_not(c), a])
+    if b == FALSE and _is_bool(a):
+        return mk_and([c, a])
+    if a == TRUE and _is_bool(b):
+        return mk_or([c, b])
+    if a == FALSE and _is_bool(b):
+        return mk_and([mk_not(c), b])
+    if c[0] == "in" and a == ("index", c[2], c[1]):
+        # d[k] if k in d else default  ==  d.get(k, default)
+        d = c[2]
+        return ("call", d[1] + ".get" if d[0] == "sym" else ("attr", d, "get"), (c[1], b), (), None)
     if _has_cond(a, c) or _has_cond(b, c):
         a2, b2 = assume(a, c, True), assume(b, c, False)
         if (a2, b2) != (a, b):
             return mk_ite(c, a2, b2)
     return ("ite", c, a, b)
+
+
+def _is_bool(t: Term) -> bool:
+    return t[0] in ("eq", "eq0", "lt0", "le0", "not", "and", "or", "in") or t in (TRUE, FALSE)
 
 
 def _has_cond(t: Term, c: Term) -> bool:
@@ -682,11 +706,14 @@ def atoms_of(t: Term):
 def subst(t: Term, mapping: Dict[Term, Term], _memo=None) -> Term:
     """Replace subterms and re-normalise."""
     if _memo is None:
-        _memo = {}
-    if t in mapping:
+        # memo by identity (the input term keeps every subterm alive): avoids re-hashing whole subtrees at every node; the
+        # mapping itself is only consulted for terms of a kind that occurs among its keys
+        _memo = {"__kinds__": {m[0] for m in mapping}}
+    if t[0] in _memo["__kinds__"] and t in mapping:
         return mapping[t]
-    if t in _memo:
-        return _memo[t]
+    got = _memo.get(id(t))
+    if got is not None:
+        return got
     k = t[0]
     r = t
     S = lambda x: subst(x, mapping, _memo)
@@ -774,7 +801,7 @@ def subst(t: Term, mapping: Dict[Term, Term], _memo=None) -> Term:
         r = ("star", S(t[1]))
     else:
         r = tuple(S(x) if isinstance(x, tuple) and x and isinstance(x[0], str) else x for x in t)
-    _memo[t] = r
+    _memo[id(t)] = r
     return r
 
 
